@@ -124,8 +124,13 @@ func (m *c13model) eval(n *Node, ch thunk) []string {
 		return m.eval(kids(0), nil)
 	case "flushcallee":
 		return children()
-	case "hwwrap":
+	case "hwwrap", "hwnonce":
 		return m.eval(kids(0), ch)
+	case "hwclear":
+		return m.eval(kids(0), nil)
+	case "hwforward": // drops its own block, passes kid 1 to kid 0 as the block
+		blk := kids(1)
+		return m.eval(kids(0), func() []string { return m.eval(blk, nil) })
 	}
 	panic("c13 model: kind " + n.K)
 }
@@ -188,7 +193,7 @@ func (g *c13gen) callee(budget *int, depth int) *Node {
 	t := g.t
 	// templ.Join is never *given* a block: what its elements should then receive is not
 	// defined by the statement (it passes its context on), so that shape is not judged.
-	kinds := []string{"slot", "slot", "slottwice", "noslot", "passdown", "slotaround", "hwchildren", "flushcallee", "hwwrapslot", "oncecallee", "hwignore", "raw", "join"}
+	kinds := []string{"slot", "slot", "slottwice", "noslot", "passdown", "slotaround", "hwchildren", "flushcallee", "hwwrapslot", "oncecallee", "hwignore", "raw", "join", "hwforward", "hwnonce", "hwclear"}
 	k := kinds[t.Choose(len(kinds), "calleekind")]
 	switch k {
 	case "slot", "slottwice", "noslot", "hwignore":
@@ -213,6 +218,10 @@ func (g *c13gen) callee(budget *int, depth int) *Node {
 			n.Kids = append(n.Kids, g.node(budget, depth+1))
 		}
 		return n
+	case "hwforward":
+		return &Node{K: k, Kids: []*Node{g.callee(budget, depth+1), g.node(budget, depth+1)}}
+	case "hwnonce", "hwclear":
+		return &Node{K: k, Kids: []*Node{g.callee(budget, depth+1)}}
 	}
 	panic(k)
 }
@@ -280,6 +289,8 @@ func closureOwner(root *Node, tok string) string {
 				o = "block-of-" + n.Kids[0].K
 			case n.K == "oncebody" || n.K == "flush":
 				o = "body-of-" + n.K
+			case n.K == "hwforward" && i == 1:
+				o = "block-forwarded-by-handwritten-layer"
 			}
 			if walk(k, o) {
 				return true
@@ -332,7 +343,7 @@ func c13World(rc *kernel.RunCtx) {
 		c := c
 		c.env = newEnv(uni)
 		park := func(kind string, n int) { k.Park(c.name, kind, fmt.Sprint(n), nil) }
-		c.w = &core{fault: c.fault, sticky: true, park: park}
+		c.w = &core{fault: c.fault, sticky: true, park: park, limit: 512 << 10}
 		k.Go(func() {
 			k.Park(c.name, "start", "", nil)
 			ctx := templ.InitializeContext(context.Background())
@@ -348,6 +359,18 @@ func c13World(rc *kernel.RunCtx) {
 		k.Quiesce()
 		ps := k.ParkedList()
 		if len(ps) == 0 {
+			break
+		}
+		runaway := false
+		for _, p := range ps {
+			if p.Kind == "runaway" {
+				runaway = true
+			}
+		}
+		if runaway || k.Steps > 100*maxSteps {
+			// the parked tasks are abandoned; the worker process is restarted after this run
+			rc.Fail("C13/render-does-not-terminate", "a render wrote more than %d bytes or needed %d scheduler steps (runaway recursion)", 512<<10, k.Steps)
+			rc.Res.Restart = true
 			break
 		}
 		i := 0
